@@ -59,4 +59,213 @@ theorem f80to64_eq_spec (se m : Nat) (hse : se < 2 ^ 16) : f80to64 se m = f80to6
       have : (1 % 2 == 1) = true := by decide
       rw [this, roundF64_neg]
 
+
+/-! ### exactness of the rounding step on representable values -/
+
+/-- normalised significand: m shifted so that its top bit is bit 52 -/
+def norm53 (m : Nat) : Nat := m <<< (52 - m.log2)
+
+theorem norm53_bounds (m : Nat) (hm0 : m ≠ 0) (hm : m < 2 ^ 53) : 2 ^ 52 ≤ norm53 m ∧ norm53 m < 2 ^ 53 := by
+  have hL : m.log2 ≤ 52 := by have := (Nat.log2_lt hm0).mpr hm; omega
+  have h1 := Nat.log2_self_le hm0
+  have h2 := @Nat.lt_log2_self m
+  unfold norm53
+  rw [Nat.shiftLeft_eq]
+  have e52 : 2 ^ 52 = 2 ^ m.log2 * 2 ^ (52 - m.log2) := by rw [← Nat.pow_add]; congr 1; omega
+  have e53 : 2 ^ 53 = 2 ^ (m.log2 + 1) * 2 ^ (52 - m.log2) := by rw [← Nat.pow_add]; congr 1; omega
+  have hpos : 0 < 2 ^ (52 - m.log2) := Nat.pos_of_ne_zero (by simp)
+  constructor
+  · rw [e52]; exact Nat.mul_le_mul_right _ h1
+  · rw [e53]; exact Nat.mul_lt_mul_of_pos_right h2 hpos
+
+/-- a value with at most 53 significant bits inside the binary64 normal range is encoded exactly:
+    decoding the bits gives back the sign, the normalised significand and its exponent -/
+theorem roundF64_exact (neg : Bool) (m : Nat) (e : Int) (hm0 : m ≠ 0) (hm : m < 2 ^ 53)
+    (hlo : -1022 ≤ e + (m.log2 : Int)) (hhi : e + (m.log2 : Int) ≤ 1023) :
+    val64 (roundF64 neg m e) = .fin neg (norm53 m) (e + (m.log2 : Int) - 52) := by
+  have hL : m.log2 ≤ 52 := by have := (Nat.log2_lt hm0).mpr hm; omega
+  obtain ⟨hr1, hr2⟩ := norm53_bounds m hm0 hm
+  unfold roundF64 roundMag
+  simp only [hm0, if_false]
+  have hq : max (e + (m.log2 : Int) - 52) (-1074) = e + (m.log2 : Int) - 52 := by omega
+  simp only [hq]
+  have hge : e ≥ e + (m.log2 : Int) - 52 := by omega
+  have hsh : (e - (e + (m.log2 : Int) - 52)).toNat = 52 - m.log2 := by omega
+  simp only [hge, if_true, hsh]
+  change val64 ((if neg = true then 2 ^ 63 else 0) + clampInf ((e + (m.log2 : Int) - 52 + 1074).toNat * 2 ^ 52 + norm53 m)) = _
+  generalize hX : (e + (m.log2 : Int) - 52 + 1074).toNat = X
+  have hXle : X ≤ 2045 := by omega
+  have hXe : (X : Int) = e + (m.log2 : Int) + 1022 := by omega
+  generalize norm53 m = r at hr1 hr2 ⊢
+  have e52 : (2 : Nat) ^ 52 = 4503599627370496 := by decide
+  have e53 : (2 : Nat) ^ 53 = 9007199254740992 := by decide
+  have e63 : (2 : Nat) ^ 63 = 9223372036854775808 := by decide
+  rw [e52] at hr1 ⊢; rw [e53] at hr2; rw [e63]
+  have hclamp : clampInf (X * 4503599627370496 + r) = X * 4503599627370496 + r := by
+    unfold clampInf
+    have : ¬ (X * 4503599627370496 + r ≥ 0x7FF0000000000000) := by omega
+    simp only [this, if_false]
+  rw [hclamp]
+  obtain ⟨s, hs, hsneg⟩ : ∃ s : Nat, (if neg = true then 9223372036854775808 else 0) = s * 9223372036854775808 ∧ (s == 1) = neg ∧ s ≤ 1 := by
+    cases neg
+    · exact ⟨0, by simp, by decide, by omega⟩
+    · exact ⟨1, by simp, by decide, by omega⟩
+  rw [hs]
+  unfold val64 valIEEE
+  have p52 : (2 : Nat) ^ 52 = 4503599627370496 := by decide
+  have p11 : (2 : Nat) ^ 11 = 2048 := by decide
+  have p63 : (2 : Nat) ^ (52 + 11) = 9223372036854775808 := by decide
+  have p10 : ((2 : Int) ^ (11 - 1) - 1) = 1023 := by decide
+  simp only [p52, p11, p63, p10]
+  have hfrac : (s * 9223372036854775808 + (X * 4503599627370496 + r)) % 4503599627370496 = r - 4503599627370496 := by omega
+  have hex : (s * 9223372036854775808 + (X * 4503599627370496 + r)) / 4503599627370496 % 2048 = X + 1 := by omega
+  have hneg : (s * 9223372036854775808 + (X * 4503599627370496 + r)) / 9223372036854775808 % 2 = s := by omega
+  rw [hfrac, hex, hneg]
+  have h1 : ¬ (X + 1 = 2048 - 1) := by omega
+  have h2 : ¬ (X + 1 = 0) := by omega
+  simp only [h1, h2, if_false]
+  have hr : 4503599627370496 + (r - 4503599627370496) = r := by omega
+  have hexp : ((X + 1 : Nat) : Int) - 1023 - ((52 : Nat) : Int) = e + (m.log2 : Int) - 52 := by
+    have : ((X + 1 : Nat) : Int) = (X : Int) + 1 := by simp
+    rw [this, hXe]; omega
+  rw [hr, hsneg.1, hexp]
+
+theorem same_norm53 (neg : Bool) (m : Nat) (e : Int) (hL : m.log2 ≤ 52) :
+    (IEEEVal.fin neg (norm53 m) (e + (m.log2 : Int) - 52)).same (.fin neg m e) = true := by
+  have h1 : e + (m.log2 : Int) - 52 ≤ e := by omega
+  have h2 : (e - (e + (m.log2 : Int) - 52)).toNat = 52 - m.log2 := by omega
+  simp [IEEEVal.same, h1, h2, norm53]
+
+theorem same_shift (neg : Bool) (m k : Nat) (e : Int) :
+    (IEEEVal.fin neg (m <<< k) (e - (k : Int))).same (.fin neg m e) = true := by
+  have h1 : e - (k : Int) ≤ e := by omega
+  have h2 : (e - (e - (k : Int))).toNat = k := by omega
+  simp [IEEEVal.same, h1, h2]
+
+theorem log2_norm (r : Nat) (h1 : 2 ^ 52 ≤ r) (h2 : r < 2 ^ 53) : r.log2 = 52 := by
+  have hr0 : r ≠ 0 := by
+    have : 0 < 2 ^ 52 := Nat.pos_of_ne_zero (by simp)
+    omega
+  exact (Nat.log2_eq_iff hr0).mpr ⟨h1, h2⟩
+
+/-- fixed point: when the integer read has at most 53 significant bits the result denotes exactly
+    n / 2^f -/
+theorem fpToF64_exact (u f : Nat) (hu : u < 2 ^ 53) (hf : f < 64) :
+    (val64 (fpToF64 u f)).same (.fin false u (-(f : Int))) = true := by
+  have hf' : ¬ f ≥ 64 := by omega
+  by_cases hu0 : u = 0
+  · subst hu0
+    have h0 : u64ToF64 0 = 0 := by simp [u64ToF64, roundF64, roundMag]
+    have hv : val64 0 = .fin false 0 (-1074) := by decide
+    simp only [fpToF64, hf', if_false, h0, hv]
+    have : roundF64 false 0 (-1074 - (f : Int)) = 0 := by simp [roundF64, roundMag]
+    rw [this, hv]
+    simp [IEEEVal.same]
+  · have hL : u.log2 ≤ 52 := by have := (Nat.log2_lt hu0).mpr hu; omega
+    have hv := roundF64_exact false u 0 hu0 hu (by omega) (by omega)
+    obtain ⟨hr1, hr2⟩ := norm53_bounds u hu0 hu
+    have hrl := log2_norm _ hr1 hr2
+    have hr0 : norm53 u ≠ 0 := by
+      have : 0 < 2 ^ 52 := Nat.pos_of_ne_zero (by simp)
+      omega
+    simp only [fpToF64, hf', if_false, u64ToF64, hv]
+    have hv2 := roundF64_exact false (norm53 u) (0 + (u.log2 : Int) - 52 - (f : Int)) hr0 hr2
+      (by rw [hrl]; omega) (by rw [hrl]; omega)
+    rw [hv2, hrl]
+    have hnn : norm53 (norm53 u) = norm53 u := by
+      show (norm53 u) <<< (52 - (norm53 u).log2) = norm53 u
+      rw [hrl]; simp
+    rw [hnn]
+    have hE : 0 + (u.log2 : Int) - 52 - (f : Int) + ((52 : Nat) : Int) - 52 = -(f : Int) - ((52 - u.log2 : Nat) : Int) := by omega
+    rw [hE]
+    exact same_shift false u (52 - u.log2) (-(f : Int))
+
+
+theorem val32_fin_bounds (b : Nat) (neg : Bool) (m : Nat) (e : Int) (h : val32 b = .fin neg m e) :
+    m < 2 ^ 24 ∧ -149 ≤ e ∧ e ≤ 104 := by
+  unfold val32 valIEEE at h
+  have p23 : (2 : Nat) ^ 23 = 8388608 := by decide
+  have p8 : (2 : Nat) ^ 8 = 256 := by decide
+  have p24 : (2 : Nat) ^ 24 = 16777216 := by decide
+  have pb : ((2 : Int) ^ (8 - 1) - 1) = 127 := by decide
+  simp only [p23, p8, pb] at h
+  rw [p24]
+  have hf : b % 8388608 < 8388608 := Nat.mod_lt _ (by decide)
+  have hx : b / 8388608 % 256 < 256 := Nat.mod_lt _ (by decide)
+  split at h
+  · split at h <;> cases h
+  · split at h
+    · injection h with _ hm he
+      subst hm; subst he
+      refine ⟨by omega, by omega, by omega⟩
+    · injection h with _ hm he
+      subst hm; subst he
+      refine ⟨by omega, by omega, by omega⟩
+
+theorem nanbits (s p : Nat) (hp : p < 4194304) :
+    val64 (s * 2 ^ 63 + 0x7FF8000000000000 + p * 2 ^ 29) = .nan := by
+  have e : s * 2 ^ 63 + 0x7FF8000000000000 + p * 2 ^ 29
+      = (s * 2048 + 2047) * 4503599627370496 + (2251799813685248 + p * 536870912) := by
+    have : (2 : Nat) ^ 63 = 2048 * 4503599627370496 := by decide
+    have : (2 : Nat) ^ 29 = 536870912 := by decide
+    omega
+  have hr : 2251799813685248 + p * 536870912 < 4503599627370496 := by omega
+  have h1 : (s * 2048 + 2047) % 2048 = 2048 - 1 := by omega
+  have h2 : ¬ (2251799813685248 + p * 536870912 = 0) := by omega
+  rw [e]
+  clear e
+  unfold val64 valIEEE
+  have p52 : (2 : Nat) ^ 52 = 4503599627370496 := by decide
+  have p11 : (2 : Nat) ^ 11 = 2048 := by decide
+  simp only [p52, p11]
+  clear p52 p11
+  have hdiv : ((s * 2048 + 2047) * 4503599627370496 + (2251799813685248 + p * 536870912)) / 4503599627370496
+      = s * 2048 + 2047 := by
+    rw [Nat.mul_comm, Nat.mul_add_div (by decide), Nat.div_eq_of_lt hr]
+  have hmod : ((s * 2048 + 2047) * 4503599627370496 + (2251799813685248 + p * 536870912)) % 4503599627370496
+      = 2251799813685248 + p * 536870912 := by
+    rw [Nat.mul_comm, Nat.mul_add_mod, Nat.mod_eq_of_lt hr]
+  rw [hdiv, hmod]
+  simp only [h1, if_true, h2, if_false]
+
+theorem val64_signed_zero : val64 0 = .fin false 0 (-1074) ∧ val64 (2 ^ 63) = .fin true 0 (-1074) := by
+  decide +kernel
+
+theorem val64_inf : val64 (0 + 0x7FF0000000000000) = .inf false ∧ val64 (2 ^ 63 + 0x7FF0000000000000) = .inf true := by
+  decide +kernel
+
+/-- Go `float64(x)` of a float32 is exact: the binary64 pattern denotes the same number -/
+theorem widen32_exact (b : Nat) : (val64 (widen32 b)).same (val32 b) = true := by
+  unfold widen32
+  cases hv : val32 b with
+  | nan =>
+    simp only []
+    have hp : b % 2 ^ 22 < 4194304 := Nat.mod_lt _ (by decide)
+    rw [nanbits _ _ hp]; rfl
+  | inf neg =>
+    show (val64 (encode64 (.inf neg))).same (.inf neg) = true
+    cases neg
+    · simp only [encode64, Bool.false_eq_true, if_false]; rw [val64_inf.1]; rfl
+    · simp only [encode64, if_true]; rw [val64_inf.2]; rfl
+  | fin neg m e =>
+    obtain ⟨hm, he1, he2⟩ := val32_fin_bounds b neg m e hv
+    show (val64 (encode64 (.fin neg m e))).same (.fin neg m e) = true
+    simp only [encode64]
+    by_cases hm0 : m = 0
+    · subst hm0
+      have : val64 (roundF64 neg 0 e) = .fin neg 0 (-1074) := by
+        have : roundF64 neg 0 e = if neg then 2 ^ 63 else 0 := by simp [roundF64, roundMag]
+        rw [this]
+        cases neg
+        · simp only [Bool.false_eq_true, if_false]; exact val64_signed_zero.1
+        · simp only [if_true]; exact val64_signed_zero.2
+      rw [this]
+      simp [IEEEVal.same]
+    · have hL : m.log2 ≤ 23 := by have := (Nat.log2_lt hm0).mpr hm; omega
+      have hm53 : m < 2 ^ 53 := by
+        have : (2 : Nat) ^ 24 ≤ 2 ^ 53 := Nat.pow_le_pow_right (by decide) (by decide)
+        omega
+      rw [roundF64_exact neg m e hm0 hm53 (by omega) (by omega)]
+      exact same_norm53 neg m e (by omega)
+
 end Proofs.C02
